@@ -252,6 +252,9 @@ def seq_case(r, n):
         if r.chance(1, 3):
             mem.setdefault(k, rand_word(r))
     ms = ",".join(f"{k:x}={v:x}" for k, v in mem.items())
+    if r.chance(1, 2):
+        # junk in the registers at power-on: the reset has to wipe it (the ISA oracle starts from the reset state)
+        return f"seq {n} {ms} {r.word() & 0x1FFFFF:x},{rand_word(r):x},{rand_word(r):x},{r.choice([0, 0xF0, 0x10, r.word()]):x}"
     return f"seq {n} {ms}"
 
 
